@@ -295,7 +295,7 @@ def build_and_run(crate, ctx, label):
             if os.path.abspath(vlib.REPO) != "/repo":
                 # development aid (seeded changes in a scratch worktree): build against that checkout, own target dir
                 alt = os.path.abspath(vlib.REPO)
-                tdir = os.path.join(vlib.WORK, "target-alt-gen")
+                tdir = os.path.join(vlib.WORK, "target-alt-gen-" + vlib.alt_tag(vlib.REPO))
                 cargo_cmd += ["--config", 'paths=["%s","%s"]' % (os.path.join(alt, "humphrey-json"), os.path.join(alt, "humphrey-json-derive")),
                               "--target-dir", tdir]
                 bin_path = os.path.join(tdir, "debug", "c14gen")
